@@ -298,7 +298,10 @@ struct Runner {
       const Step& s = plan.steps[i];
       if (s.op.thread != R_PROBE && s.op.thread != R_HIST) continue;
       idx = (long)i;
-      if (!exec_one(s, s.op.thread == R_PROBE)) return;
+      // a history step may be repeated many times (what a call counter or a slowly filling cache would need)
+      for (int r = 0; r < (s.op.thread == R_HIST ? std::max(1, s.rep) : 1); ++r)
+        if (!exec_one(s, s.op.thread == R_PROBE)) return;
+      if (s.rep > 1) res.add("f.repeated_step", 1);
     }
   }
 };
@@ -352,6 +355,7 @@ struct Gen {
     if (op == OP_BRACKET || op == OP_JT_MUL) { s.op.ka = K_OWN; s.op.kb = K_OWN; }
     if (inf.nout) s.op.mask = (uint8_t)rng.below(1u << inf.nout);
     if (inf.nout && rng.chance(0.3)) s.op.variant |= (uint8_t)rng.below(4);
+    if (rng.chance(0.3)) s.op.variant |= V_FRESH;
     if (rng.chance(0.2) && (op == OP_INTERP_SLERP || op == OP_INTERP_CUBIC || op == OP_INTERP_SMOOTH || op == OP_T_SCALE ||
                             op == OP_TM_PLUSEQ || op == OP_TM_MINUSEQ)) s.op.variant |= V_ALT;
   }
@@ -491,6 +495,17 @@ struct Gen {
       size_t pos = seq.empty() ? 0 : rng.below((uint32_t)seq.size() + 1);
       Step trio[3] = {p, mid, p};
       seq.insert(seq.begin() + pos, trio, trio + 3);
+    }
+    // one const history step repeated hundreds to thousands of times
+    if (rng.chance(0.25) && !seq.empty()) {
+      for (int tries = 0; tries < 8; ++tries) {
+        Step& s = seq[rng.below((uint32_t)seq.size())];
+        const OpInfo& inf = op_info(s.op.op);
+        if (s.op.thread != R_HIST || !inf.is_const || s.op.fault != F_NONE || inf.cls == C_ALG) continue;
+        s.rep = 100 + (int)rng.below(thorough ? 20000 : 3000);
+        s.dst = -1;
+        break;
+      }
     }
     for (const Step& s : seq) plan.steps.push_back(s);
     plan.set("hist_len", hl);
